@@ -261,11 +261,16 @@ func (l *lexer) nextToken() (Token, error) {
 }
 
 type stack struct {
-	steps []*Path
-	count int
+	steps    []*Path
+	count    int
+	overflow bool
 }
 
 func (s *stack) push(p *Path) {
+	if s.count >= len(s.steps) {
+		s.overflow = true
+		return
+	}
 	if s.count > 0 {
 		parent := s.peek()
 		parent.Next = p
